@@ -1,5 +1,6 @@
 from construct import Adapter
 from construct import Container
+from io import SEEK_SET
 from typing import  Tuple
 
 from smpl_extract.data_streams import Endianess
@@ -113,6 +114,11 @@ class WavSampleAdapter(Adapter):
 
         if len(sample.data_streams) < 1:
             raise NoDataStream("Sample has no data stream")
+
+        # the audio is always written from its beginning, also when the
+        # streams were read before (e.g. by an earlier export)
+        for data_stream in sample.data_streams:
+            data_stream.stream.seek(0, SEEK_SET)
 
         dest_encoding = StreamEncoding(
             endianess=Endianess.LITTLE,  # WAV Specification
